@@ -10,13 +10,19 @@ RULE = ('cases as for C01 plus n-best 2..10, grammars whose rules create categor
         'token objects in order with admitted tags, every node a grammar result for its children, allowed root, no unary at the '
         'root of a multi-word sentence, and membership in the reference enumeration. distinct = fingerprint of (grammar, matrices, '
         'config); non-trivial = a parse was returned for a sentence of >= 2 words.')
-ASSUMPTIONS = SC.ASSUMPTIONS
-REQUIRED_MONITORS = {'monitor:tree-validated': 500, 'monitor:label-checked': 500, 'monitor:nbest-vs-enumeration': 100}
+ASSUMPTIONS = SC.ASSUMPTIONS + ['valgrind memcheck reports are kept only if a frame lies inside the shim / parsing.h']
+REQUIRED_MONITORS = {'monitor:tree-validated': 500, 'monitor:label-checked': 500, 'monitor:nbest-vs-enumeration': 100,
+                     'valgrind:shards-completed': 1}
 prepare = SC.prepare
 
 
 def shards(tier, seed):
-    return SC.shards(tier, seed, q_cases=300)
+    out = SC.shards(tier, seed, q_cases=300)
+    q = tier == 'quick'
+    # uninitialised reads are invisible to ASan/UBSan: a small share of the workload runs under valgrind memcheck
+    out += [{'name': f'valgrind{k}', 'variant': 'vg', 'build': 'vg', 'valgrind': True, 'cases': 25 if q else 250,
+             'budget_s': 60 if q else 700, 'timeout': 1200, 'kind': 'synthetic'} for k in range(1 if q else 4)]
+    return out
 
 
 def gen(rng, spec):
